@@ -30,7 +30,7 @@ ASSUMPTIONS = [
 ]
 REQUIRED_MONITORS = ['mutants:stdout', 'mutants:stderr', 'mutants:file', 'mutants:status', 'unchanged:passes',
                      'hook:exclusions_parsed']
-REQUIRED_CLASSES = ['how=alter', 'how=add', 'how=remove', 'how=missing', 'how=change']
+REQUIRED_CLASSES = ['how=alter_equivalent', 'how=alter', 'how=add', 'how=remove', 'how=missing', 'how=change']
 
 
 def excluded_by_design(line, g, date_like_exclusions=()):
@@ -41,7 +41,7 @@ def excluded_by_design(line, g, date_like_exclusions=()):
     toks = [g.tokens['user'], g.tokens['host'], g.workdir] + GC.today_tokens() + list(date_like_exclusions)
     if g.tokens.get('ip'):
         toks.append(g.tokens['ip'])
-    return any(t and t in line for t in toks)
+    return any(t and t in line for t in toks) or GC.TMPDIR_TOKEN in line
 
 
 def run_case(ctx, case):
@@ -95,9 +95,9 @@ def run_case(ctx, case):
         if t == 'file' and m['name'].startswith(GC.TMP_PREFIX) and case.get('wizard') and not case['wizard']['tmpdir_tracking']:
             continue                      # the user declined the checking of files under $TMPDIR
         blind = False
-        if t in ('stdout', 'stderr') and m['how'] in ('alter', 'remove', 'alter_token'):
+        if t in ('stdout', 'stderr') and m['how'] in ('alter', 'remove', 'alter_token', 'alter_equivalent'):
             blind = excluded_by_design(spec[t][m['line']], g, datesubs)
-        if t == 'file' and m['how'] in ('alter', 'alter_token') and spec['files'][m['file']]['kind'] == 'text':
+        if t == 'file' and m['how'] in ('alter', 'alter_token', 'alter_equivalent') and spec['files'][m['file']]['kind'] == 'text':
             blind = excluded_by_design(spec['files'][m['file']]['lines'][m['line']], g, datesubs)
         # history: a normal run of the command leaves its outputs behind, THEN the command changes
         try:
